@@ -449,3 +449,57 @@ MUTANTS += [
  dict(id="C19-udp-statistics-spawned-detached", props=["C19"], expect={"C19": r"watched#aquatic_udp$"},
       edits=[(US+"lib.rs", "        join_handles.push((WorkerType::Statistics, handle));", "        drop(handle);")]),
 ]
+
+SWR = US + "swarm.rs"
+MUTANTS += [
+ dict(id="C04-drop-empty-torrent-without-sole-owner-test", props=["C04"], expect={"C04": r"marker#sole_owner"},
+      edits=[(SWR, """                if let Some(peer_map) = Arc::get_mut(peer_map) {
+                    if peer_map.read().is_empty() {
+                        return false;
+                    }
+                }""", """                if peer_map.read().is_empty() {
+                    return false;
+                }""")]),
+ dict(id="C04-torrent-then-shard", props=["C04"], expect={"C04": r"order#graph"},
+      edits=[(SWR, """                // Allow other threads to access the peer map again
+                drop(peer_map);
+
+                let num_peers = num_seeders + num_leechers;""", """                let still_there = torrent_map_shard.read().contains_key(&info_hash);
+
+                // Allow other threads to access the peer map again
+                drop(peer_map);
+
+                let num_peers = if still_there { num_seeders + num_leechers } else { 0 };""")]),
+ dict(id="C04-scrape-two-shards", props=["C04"], expect={"C04": r"order#graph"},
+      edits=[(SWR, """            let statistics = if let Some(peer_map) = torrent_map_shard.read().get(&info_hash) {
+                peer_map.read().scrape_statistics()""", """            let other = self.0[0].read();
+            let statistics = if let Some(peer_map) = torrent_map_shard.read().get(&info_hash) {
+                let _ = other.len();
+                peer_map.read().scrape_statistics()""")]),
+ dict(id="C04-sleep-under-torrent-guard", props=["C04"], expect={"C04": r"order#no_blocking_under_guard"},
+      edits=[(SWR, """        let mut peer_map = peer_map.write();
+
+        peer_map.announce(""", """        let mut peer_map = peer_map.write();
+
+        if config.protocol.max_response_peers == usize::MAX { std::thread::sleep(std::time::Duration::from_millis(1)); }
+
+        peer_map.announce(""")]),
+ dict(id="BENIGN-C04-strong-count-idiom", props=["C04"], benign=True,
+      edits=[(SWR, """                if let Some(peer_map) = Arc::get_mut(peer_map) {
+                    if peer_map.read().is_empty() {
+                        return false;
+                    }
+                }""", """                if Arc::strong_count(peer_map) == 1 {
+                    if peer_map.read().is_empty() {
+                        return false;
+                    }
+                }""")]),
+ dict(id="BENIGN-C04-announce-holds-shard-while-locking-torrent", props=["C04"], benign=True,
+      edits=[(SWR, """        let peer_map = {
+            let torrent_map_shard = self.get_shard(&request.info_hash).upgradable_read();
+""", """        let keep_alive = self.get_shard(&request.info_hash);
+        let peer_map = {
+            let _ = keep_alive;
+            let torrent_map_shard = self.get_shard(&request.info_hash).upgradable_read();
+""")]),
+]
